@@ -92,6 +92,16 @@ def run_case(ctx, which, case):
         ctx.seen('construction_errors', '%s@%s' % (type(ex).__name__, site_of(ex)))
         return
     requested = [dict(s_) for s_ in spec['suppressions']]
+    # what the instructor asked for explicitly is what the object says (the model reads the objects)
+    idxs = list(range(len(spec['feedbacks']))) if order is None else order
+    for obj, i in zip(objs, idxs):
+        asked = spec['feedbacks'][i]['kw']
+        for attr in ({'C01': ('kind', 'muted'), 'C02': ('muted',), 'C03': ('valence', 'unscored', 'muted')}[which]):
+            if asked.get(attr) is not None and hasattr(obj, attr):
+                got = getattr(obj, attr)
+                if got != asked[attr] or type(got) is not type(asked[attr]):
+                    ctx.violation('%s|attribute-given-is-not-the-attribute-used|%s|%s' % (which, attr, spec['feedbacks'][i]['cls']), case,
+                                  '%s(..., %s=%r) has %s == %r' % (spec['feedbacks'][i]['cls'], attr, asked[attr], attr, got))
     try:
         final = simple.resolve(report)
         if more is not None:
